@@ -158,6 +158,8 @@ class RecPlugin(ResourceProvider, SnapshotDecorator, TracepointLogger, SpanProce
         return 0 if self.falsy else 1
 
     def order(self):
+        if 'order' in self.faults:
+            raise self.exc("order failed")
         return self.order_
 
     def shutdown(self):
